@@ -110,7 +110,7 @@ func (w *World) key(i int) *simnode.Key {
 // MakeTx builds a transaction from a generated op:
 //
 //	xfer I=[from,to,amount,nonce]   coins transfer (from=-1: genesis account)
-//	none I=[from,nonce]             "none" executor transaction
+//	none I=[from,nonce,para]        "none" executor transaction (para=1: of a parallel chain)
 func (w *World) MakeTx(op *simrt.Op) *types.Transaction {
 	var tx *types.Transaction
 	switch op.K {
@@ -120,9 +120,14 @@ func (w *World) MakeTx(op *simrt.Op) *types.Transaction {
 		tx = &types.Transaction{Execer: []byte(w.Cfg.GetCoinExec()), Payload: types.Encode(&cty.CoinsAction{Value: v, Ty: cty.CoinsActionTransfer}), To: to}
 		tx.Nonce = op.Int(3)
 	case "none":
-		tx = &types.Transaction{Execer: []byte("none"), Payload: []byte(fmt.Sprintf("none-%d", op.Int(1)))}
-		tx.To = w.Fac.Cfg.GetCoinExec() // replaced below
-		tx.To = addrOfExec(w.Cfg, "none")
+		// I[2]=1: addressed to a parallel chain's executor (recorded on the main
+		// chain, indexed there by title, executed as a no-op)
+		exec := "none"
+		if op.Int(2) == 1 {
+			exec = "user.p.simpara.none"
+		}
+		tx = &types.Transaction{Execer: []byte(exec), Payload: []byte(fmt.Sprintf("none-%d", op.Int(1)))}
+		tx.To = addrOfExec(w.Cfg, exec)
 		tx.Nonce = op.Int(1)
 	case "toexec": // I=[from,_,amount,nonce]: coins transfer into the "none" executor
 		to := execAddr("none")
